@@ -345,6 +345,9 @@ func (c *Ctx) callFunc(o *types.Func, recv Value, args []Value, e *ast.CallExpr)
 		return c.inlineCall(fi, recv, args, e)
 	}
 	if isInterfaceMethod(o) {
+		if !c.spec && recv.Kind == KScalar && recv.S.Sort == SRef {
+			c.oblige("nil", exprText(e.Fun), Neq(recv.S, Nil), e.Pos())
+		}
 		for _, n := range ifaceMethodNames(o, recv) {
 			if c.contractsAll(func(k *Contracts) bool { return k.Pure[n] }) {
 				return c.pureUF(n, resultType(o), recv, args)
@@ -435,9 +438,11 @@ func (c *Ctx) callback(name string, T types.Type, e *ast.CallExpr) Value {
 	}
 	if !c.spec {
 		// calling a nil callback panics
-		if ng := c.x.contracts().Preds["nonnil_"+strings.ReplaceAll(name, ".", "_")]; ng != nil {
-			g := c.specEvalPred(ng)
-			c.oblige("nilfunc", name, g, e.Pos())
+		if sel, ok := unparen(e.Fun).(*ast.SelectorExpr); ok && c.info != nil {
+			fv := c.evalSelector(sel)
+			if fv.Kind == KScalar && fv.S.Sort == SRef {
+				c.oblige("nilfunc", name, Neq(fv.S, Nil), e.Pos())
+			}
 		}
 	}
 	if c.contractsAll(func(k *Contracts) bool { return k.Pure[name] }) {
@@ -534,8 +539,12 @@ func (c *Ctx) execGhost(g *Clause, vars map[string]Value, old *State) {
 		panic(engineErr("%s:%d: ghost assignment to undeclared %q", g.File, g.Line, g.Target))
 	}
 	v := c.specEvalV(g.Expr, c.st, old, vars)
-	c.st.store["G:"+gd.Name] = Scalar(v.S, nil)
-	c.x.locTypes["G:"+gd.Name] = nil
+	if v.Kind == KScalar {
+		v = Scalar(v.S, nil)
+	} else if v.Kind == KSlice {
+		v = Value{Kind: KSlice, Arr: v.Arr, Len: v.Len, IsNil: False}
+	}
+	c.st.store["G:"+gd.Name] = v
 }
 
 // havocList forgets the listed locations ("*" = everything).
@@ -551,7 +560,7 @@ func (c *Ctx) havocList(locs []string, recvVars map[string]Value) {
 		for _, key := range x.expandLoc(l, c.st) {
 			if strings.HasPrefix(key, "G:") {
 				g := c.pkg.Contracts.GhostIdx[key[2:]]
-				c.st.store[key] = Scalar(Fresh("havoc.ghost."+g.Name, g.Sort), nil)
+				c.st.store[key] = c.x.ghostShape(g, "havoc.ghost."+g.Name, true)
 				continue
 			}
 			x.havocKey(c.st, key)
